@@ -415,5 +415,14 @@ pub fn block_layouts() -> Vec<(String, AProg)> {
             v.push((format!("3 blocks {o:x?} sizes {n:?} order {perm:?}"), p));
         }
     }
+    // reservation-only blocks (.blkw: every word of the block uninitialised) next to, touching and overlapping filled or reserved blocks
+    let mkr = |o: u16, n: u16, tag: &str, one: bool| -> AProg { if one { block(o, vec![lst(tag, Nuc::Blkw(n))]) } else { block(o, (0..n).map(|k| if k == 0 { lst(tag, Nuc::Blkw(1)) } else { st(Nuc::Blkw(1)) }).collect()) } };
+    for &b in &[0x3000u16, 0xFDF0] { for delta in [0i32, 1, 2, 3, 4, 5] { for (n1, n2) in [(4u16, 1u16), (4, 4), (1, 4), (1, 1)] { for kind in 0..5u8 {
+        let o2 = (b as i32 + delta) as u16;
+        let (a, c) = match kind { 0 => (mkr(b, n1, "BA", true), mk(o2, n2, "BB", None)), 1 => (mk(b, n1, "BA", None), mkr(o2, n2, "BB", true)), 2 => (mkr(b, n1, "BA", true), mkr(o2, n2, "BB", true)), 3 => (mkr(b, n1, "BA", false), mk(o2, n2, "BB", None)), _ => (mkr(b, n1, "BA", false), mkr(o2, n2, "BB", false)) };
+        let mut p1 = a.clone(); p1.extend(c.clone()); let mut p2 = c; p2.extend(a);
+        v.push((format!("2 blocks (reserved kind {kind}) x{b:04X}+{n1}, +{delta}+{n2}"), p1));
+        v.push((format!("2 blocks rev (reserved kind {kind}) x{b:04X}+{n1}, +{delta}+{n2}"), p2));
+    } } } }
     v
 }
